@@ -30,6 +30,13 @@ Theorem C17_guarded : forall h : list sev, C17_guard h = false -> has_repeat (se
 Proof. exact fresh_guarded. Qed.
 Print Assumptions C17_guarded.
 
+(* the same for messages sent in ANY order relative to the order their counts were drawn (history =
+   draw indices of the sent messages, in sending order): a repeat occurs iff two consecutive sends
+   have draw indices congruent modulo PERIOD *)
+Theorem C17_iff_by_index : forall idx : list nat, has_repeat (counts_of idx) = idx_guard idx.
+Proof. exact repeat_iff_idx_guard. Qed.
+Print Assumptions C17_iff_by_index.
+
 (* the guard holds whenever fewer than PERIOD - 1 counts are drawn between two consecutive sends *)
 Theorem C17_small_gaps : forall h, Forall (fun g => 0 <= g < PERIOD - 1) (gaps h) -> C17_guard h = false.
 Proof. exact small_gaps_ok. Qed.
